@@ -202,8 +202,10 @@ V("O02.arms", ["C02", "C10", "C11", "C06", "C14", "C13", "C05", "C03"], "c02_arm
 # ---------------------------------------------------------------------------------------------
 # C10 implementation choice unobservable
 # ---------------------------------------------------------------------------------------------
-V("O10.3", ["C10", "C06"], "c10_fused", expect_verified=5,
-  functions=["mirror_operator", "Compiler::compile_const_var_infix_expression", "Compiler::compile_operator", "Compiler::compile_expression arm Expr::Infix"],
+V("O10.3m", ["C10", "C06"], "c10_mirror", expect_verified=2, functions=["mirror_operator", "lemma_mirror (mirror law over mathematical integers)"],
+  desc="mirror_operator answers exactly the mirror table (a op b == b op' a) and refuses - / % and the logical operators; the mirror law holds for ALL integers (lemma). Own unit so that the Infix arm stays decidable when the helper is inlined or removed (seed C10-6)")
+V("O10.3", ["C10", "C06"], "c10_fused", expect_verified=4,
+  functions=["Compiler::compile_const_var_infix_expression", "Compiler::compile_operator", "Compiler::compile_expression arm Expr::Infix"],
   desc="fused instruction only for (variable, int literal) with the operator's meaning or (int literal, variable) with the MIRRORED meaning (never - / % with the literal left); otherwise left code, right code (ghost log order), operator opcode; meaning tables shared with the machine arms (unit c02_arms)")
 K("O10.1", ["C10"], "compiler", "c10_add_constant", level="bounded", bound="constant pool of 0..=2 integer entries, symbolic new integer constant", functions=["Compiler::add_constant"],
   desc="returned slot holds the same type and content; earlier slots unchanged; index in range")
